@@ -175,16 +175,16 @@ def grid_cases(ck):
         ("Unsubscribed", "full", "subscription", "request != 0 with subscription", [35, 5, {"subscription": 7}]),
         ("Unsubscribed", "full", "subscription", "request 0 subscription 0", [35, 0, {"subscription": 0}]),
         ("Unregistered", "full", "registration", "request != 0 with registration", [67, 5, {"registration": 7}]),
-        ("Publish", "args", "args", "bytes args with empty kwargs", [16, 1, {}, "a.b", b"x", {}]),
-        ("Publish", "args", "args", "str args", [16, 1, {}, "a.b", "s", {"k": 1}]),
+        ("Publish", "args", "payload|args", "bytes args with empty kwargs", [16, 1, {}, "a.b", b"x", {}]),
+        ("Publish", "args", "payload|args", "str args", [16, 1, {}, "a.b", "s", {"k": 1}]),
         ("Publish", "args", "kwargs", "str kwargs", [16, 1, {}, "a.b", [], "str"]),
-        ("Publish", "payload", "payload", "str payload", [16, 1, {}, "a.b", "x"]),
-        ("Call", "payload", "payload", "str payload", [48, 1, {}, "a.b", "x"]),
-        ("Result", "payload", "payload", "str payload", [50, 1, {}, "x"]),
-        ("Event", "payload", "enc_key", "enc_key without enc_algo", [36, 1, 2, {"enc_key": "k"}, b"x"]),
-        ("Event", "payload", "payload", "empty payload with enc_algo", [36, 1, 2, {"enc_algo": "cryptobox"}, b""]),
-        ("Event", "payload", "enc_algo", "custom enc_algo", [36, 1, 2, {"enc_algo": "x_my1"}, b"x"]),
-        ("Event", "payload", "enc_algo", "bad custom enc_algo", [36, 1, 2, {"enc_algo": "x_A"}, b"x"]),
+        ("Publish", "payload", "payload|args", "str payload", [16, 1, {}, "a.b", "x"]),
+        ("Call", "payload", "payload|args", "str payload", [48, 1, {}, "a.b", "x"]),
+        ("Result", "payload", "payload|args", "str payload", [50, 1, {}, "x"]),
+        ("Event", "payload", "enc_*", "enc_key without enc_algo", [36, 1, 2, {"enc_key": "k"}, b"x"]),
+        ("Event", "payload", "payload|args", "empty payload with enc_algo", [36, 1, 2, {"enc_algo": "cryptobox"}, b""]),
+        ("Event", "payload", "enc_*", "custom enc_algo", [36, 1, 2, {"enc_algo": "x_my1"}, b"x"]),
+        ("Event", "payload", "enc_*", "bad custom enc_algo", [36, 1, 2, {"enc_algo": "x_A"}, b"x"]),
         ("Hello", "full", "roles/features", "feature key self", [1, "realm1", {"roles": {"caller": {"features": {"self": True}}}}]),
         ("Hello", "full", "roles", "unknown feature + None feature", [1, "realm1", {"roles": {"caller": {"features": {"zzz": 5, "call_timeout": None}}}}]),
         ("Hello", "full", "realm", "realm None", [1, None, {"roles": {"caller": {}}}]),
